@@ -250,7 +250,7 @@ func c17Gen(rng *gen.Rng, population string) *c17Hist {
 		return c
 	}
 	content0 = func() string {
-		if extC && rng.Chance(4) {
+		if extC && rng.Chance(7) {
 			return "" // the empty string is the boundary value of every quoting and argument-passing scheme
 		}
 		if extC && rng.Chance(45) {
@@ -324,7 +324,7 @@ func c17Gen(rng *gen.Rng, population string) *c17Hist {
 			burst--
 			p = burstPath
 		}
-		render := rng.Pick([]string{"top", "direct", "direct", "direct", "funcparam", "funcglobal", "funcdirect", "nested", "nested", "if", "ifdirect", "for", "fordirect", "shared", "shared", "unused", "elsedirect", "scopes", "reexec", "paramglobal"})
+		render := rng.Pick([]string{"top", "direct", "direct", "direct", "funcparam", "funcglobal", "funcdirect", "nested", "nested", "if", "ifdirect", "for", "fordirect", "shared", "shared", "unused", "elsedirect", "scopes", "reexec", "paramglobal", "untilexists"})
 		if inBurst {
 			render = rng.Pick([]string{"direct", "direct", "top"})
 		}
@@ -727,6 +727,15 @@ func (h *c17Hist) render(seed uint64) []*c17Segment {
 			}
 			return fmt.Sprintf("func fi%d(q%d string) string {\nv%d := q%d + \"!\"\nw%d := v%d\nreturn w%d\n}\nfunc fn%d(%s) {\nu%d := fi%d(\"k\")\n%sprint(\"<<N>>\" + u%d)\n}\nfn%d(%s)\n",
 				id, id, id, id, id, id, id, id, strings.Join(ps, ", "), id, id, body, id, id, strings.Join(as, ", "))
+		case "untilexists":
+			// the operation is the body of a loop that runs until the file exists: exists() stands in
+			// the loop condition (with the path as the operation spells it) and must see the write
+			var g strings.Builder
+			for _, p := range params[1:] {
+				fmt.Fprintf(&g, "%s := %s\n", p[0], p[1])
+			}
+			fmt.Fprintf(&g, "gn%d := 0\nfor !exists(%s) {\ngn%d++\n%sif gn%d > 3 {\nbreak\n}\n}\n", id, params[0][1], id, strings.ReplaceAll(body, params[0][0], params[0][1]), id)
+			return g.String()
 		case "reexec":
 			// a body that runs twice (a function called twice, or two rounds of a loop) declares
 			// variables WITHOUT an initialiser: they start from their default on every execution. The
@@ -916,7 +925,10 @@ func (h *c17Hist) render(seed uint64) []*c17Segment {
 				sb.WriteString(wrap(op.Render, id, call, [][2]string{{pn, pe}, {cn, ce}}))
 				hoistOK = false
 			}
-			if isAppend {
+			_, wasFile := m.Files[op.Path]
+			if op.Render == "untilexists" && (wasFile || m.Dirs[op.Path]) {
+				// the loop does not run at all
+			} else if isAppend {
 				m.Files[op.Path] = m.Files[op.Path] + strings.Repeat(op.Content+"\n", loopN)
 			} else {
 				m.Files[op.Path] = op.Content + "\n"
